@@ -8,7 +8,8 @@ from . import sut, wire
 
 BEHAVIOURS = ["always", "never", "stop2", "late-within", "late-beyond", "wrong-token", "unsolicited",
               "chatty-silent", "late-long", "never", "always", "slow-register", "slow-register-silent", "cap-renegotiate", "late-once-silent", "cap-open-silent", "cap-open-answering",
-              "fragment-silent", "split-answers", "fragment-silent"]
+              "fragment-silent", "split-answers", "fragment-silent", "surplus-then-silent", "double-then-silent",
+              "surplus-then-silent"]
 
 
 class Lag(threading.Thread):
@@ -91,6 +92,11 @@ class Peer:
             elif b == "stop2":
                 if self.answered < 2:
                     answer = (now, tok)
+            elif b == "double-then-silent":
+                # the first PING is answered twice (one PONG too many), then nothing more is answered
+                if len(self.server_pings) == 1:
+                    answer = (now, tok)
+                    self.pending_answers.append((now + 0.05, tok))
             elif b == "late-within":
                 answer = (now + min(self.Q * 0.5, 0.6), tok)
             elif b == "late-long":
@@ -163,7 +169,8 @@ class Peer:
                 continue
             self.c.send("PONG :" + a[1])
             self.answered += 1
-        if now >= self.next_own_ping and self.b not in ("never", "fragment-silent", "split-answers"):
+        if now >= self.next_own_ping and self.b not in ("never", "fragment-silent", "split-answers", "surplus-then-silent",
+                                                         "double-then-silent"):
             self.n += 1
             # "a PONG carrying the same token": ordinary and odd tokens (empty, leading colon, blanks, multi-byte)
             odd = ["", ":", ":-) %d", "a:b%d", "two words %d", "é%d", "::%d", " lead%d", "#%d", "%d:", "trail%d ",
@@ -182,6 +189,11 @@ class Peer:
             else:
                 self.c.send("PING :" + tok)
             self.next_own_ping = now + 0.9
+        if self.b == "surplus-then-silent" and self.fragment_at is not None and now >= self.fragment_at:
+            # PONGs nobody asked for, before the first server PING; no PING is ever answered
+            self.fragment_at = None
+            for k in range(1 + self.idx % 3):
+                self.c.send("PONG :nobody-asked-%d" % k)
         if self.b == "unsolicited" and now >= self.next_chat:
             self.c.send("PONG :unsolicited")
             self.next_chat = now + 0.4
